@@ -106,6 +106,11 @@ impl FixtureDatabase {
             }
         }
 
+        // Every successful (re-)analysis can change what other files see - definitions
+        // may have been removed, imports or pytest_plugins may have changed - even when no
+        // definition was recorded above, so the version-keyed caches must be invalidated.
+        self.invalidate_cycle_cache();
+
         debug!("Analysis complete for {:?}", file_path);
 
         // Periodically evict cache entries to prevent unbounded memory growth
